@@ -76,8 +76,11 @@ def main(tier, seed):
     if tier == "quick":
         for pat in QUICK_PIPE_M1:
             jobs.append((T, dict(n=2, m=1, mode="pipeline", pattern=pat, which=0)))
-        chk.bounds = dict(n=2, m=[0, 1], modes="pipeline (real Cauchy point first) and direct (arbitrary feasible x_cp)",
-                          bound_patterns="all 16 (m=0 and m=1 direct); 6 for the m=1 pipeline", memory_instances=1)
+        # two pairs in memory (the off-diagonal blocks of K and the strictly lower part L only exist then)
+        for pat in (("ff", "ff"), ("ff", "fi")):
+            jobs.append((T, dict(n=2, m=2, mode="direct", pattern=pat, which=1, seed=seed)))
+        chk.bounds = dict(n=2, m=[0, 1, 2], modes="pipeline (real Cauchy point first) and direct (arbitrary feasible x_cp)",
+                          bound_patterns="all 16 (m=0 and m=1 direct); 6 for the m=1 pipeline; 2 for m=2 direct", memory_instances=1)
         tl, vk = 1200, 8
     else:
         for pat in pats2:
